@@ -68,7 +68,10 @@ class ModelMixin2:
                     return [(le.items, st)]
                 return [(self.exc('ValueError', st, node, f'cannot unpack {len(le.items)} values into {n}'), st)]
             if n is None:
-                return [(None, st)]
+                if le.hi is not None and le.lo == le.hi and le.hi <= 4:
+                    n = le.hi            # *xs with a list whose length is known exactly: materialise its elements
+                else:
+                    return [(None, st)]
             outs = []
             for ok, s in self.len_cmp(val.sym, '==', n, st):
                 if not ok:
